@@ -193,7 +193,7 @@ func (k *Kernel) procMain(p *Proc) {
 	}
 }
 
-func (p *Proc) cancelledByCtl() bool { return p.cancelled }
+func (p *Proc) cancelledByCtl() bool { return p.cancelled.Load() }
 
 // shellLoop mimics the interactive shell: one Execute per statement text,
 // AutoCommit off, an error does not end the session.
